@@ -120,6 +120,10 @@ impl ParquetTable {
             max_i64: Option<i64>,
             null_count: Option<u64>,
             has_int_stats: bool,
+            /// Some chunk may hold values its footer does not bound (no
+            /// statistics, or statistics without min/max): the table-level
+            /// min/max would then be a claim about only part of the data.
+            bounds_unknown: bool,
         }
 
         let mut total_rows: usize = 0;
@@ -152,11 +156,15 @@ impl ParquetTable {
                         max_i64: None,
                         null_count: Some(0),
                         has_int_stats: false,
+                        bounds_unknown: false,
                     });
 
                     let Some(stats) = col_chunk.statistics() else {
-                        // A chunk without stats poisons null_count accuracy.
+                        // A chunk without stats poisons null_count accuracy —
+                        // and the min/max bounds, which can no longer speak
+                        // for every value of the column.
                         acc.null_count = None;
+                        acc.bounds_unknown = true;
                         continue;
                     };
 
@@ -181,6 +189,13 @@ impl ParquetTable {
                         acc.has_int_stats = true;
                         acc.min_i64 = Some(acc.min_i64.map_or(min, |m| m.min(min)));
                         acc.max_i64 = Some(acc.max_i64.map_or(max, |m| m.max(max)));
+                    } else if matches!(
+                        stats,
+                        ParquetStatistics::Int64(_) | ParquetStatistics::Int32(_)
+                    ) && stats.null_count_opt() != Some(col_chunk.num_values() as u64)
+                    {
+                        // integer chunk with values but without min/max
+                        acc.bounds_unknown = true;
                     }
                 }
             }
@@ -254,6 +269,11 @@ impl ParquetTable {
                     .null_count
                     .map(|n| (total_rows as u64).saturating_sub(n))
                     .unwrap_or(total_rows as u64);
+                let mut acc = acc;
+                if acc.bounds_unknown {
+                    acc.min_i64 = None;
+                    acc.max_i64 = None;
+                }
                 let ndv_est = if acc.has_int_stats {
                     match (acc.min_i64, acc.max_i64) {
                         (Some(min), Some(max)) if max >= min => {
